@@ -19,6 +19,7 @@ from . import weave
 VERIF = weave.VERIF
 BASELINE = os.path.join(VERIF, 'baseline_obligations.json')
 FINDINGS = os.path.join(VERIF, 'known_findings.txt')
+EVIDENCE_REPO = ['/repo']
 def load_registry():
     """contracts/registry.py lists the units and the per-property notes; which unit serves which
     property is computed from the property tags on the contracts themselves."""
@@ -74,6 +75,7 @@ def main(argv=None):
     ap.add_argument('--keep', action='store_true')
     a = ap.parse_args(argv)
     seed = int(os.environ.get('VERIF_SEED', '0') or 0)
+    EVIDENCE_REPO[0] = a.repo
     reg = load_registry()
     t0 = time.time()
     if a.prop == 'ALL':
@@ -324,8 +326,11 @@ def write_evidence(prop, tier, seed, obligations, discharged, violations, known,
         wall_s=round(wall, 2),
         violations=len(violations),
     )
-    os.makedirs(os.path.join(VERIF, 'evidence'), exist_ok=True)
-    json.dump(ev, open(os.path.join(VERIF, 'evidence', prop + '.json'), 'w'), indent=1)
+    # evidence under /verif/evidence always describes a run against /repo itself; runs against a scratch
+    # tree (--repo, used for seeded changes) write to evidence_scratch/ (git-ignored) instead
+    edir = os.path.join(VERIF, 'evidence' if os.path.realpath(EVIDENCE_REPO[0]) == '/repo' else 'evidence_scratch')
+    os.makedirs(edir, exist_ok=True)
+    json.dump(ev, open(os.path.join(edir, prop + '.json'), 'w'), indent=1)
 
 
 if __name__ == '__main__':
